@@ -35,9 +35,10 @@ class DataclassException(Exception):
 
 def get_full_class_name(cls):
     """
-    Returns the full name of a class, including the module name.
+    Returns the full name of a class, including the module name and, for a class defined inside another class,
+    the names of the enclosing classes.
 
     :param cls: The class.
     :return: The full name of the class
     """
-    return cls.__module__ + "." + cls.__name__
+    return cls.__module__ + "." + cls.__qualname__
